@@ -154,6 +154,112 @@ def _host_config(cfg) -> dict:
     return {"subject": subject, "states": len(seen), "transitions": trans, "violation": violation}
 
 
+# -- several animations on one host display: histories of animate() calls interleaved with ticks ----------------
+MULTI_MENU = [("blink", 0, "ab", False), ("scroll", 1, "abcdef", True), ("scroll", 1, "xy", False), ("typewriter", 0, "abc", False), ("bounce", 1, "q", True), ("blink", 0, "zz", True)]
+
+
+def _host_multi(args) -> dict:
+    """All histories of depth <= bound over {animate(one of 6), tick(+100), tick(+30)} on a 4x2 display (at most three
+    animate calls per history).  A looping animation, once started, stays registered, active and keeps advancing on
+    due ticks, whatever is started or finishes around it; ticks never raise; rows keep their width."""
+    from collections import deque
+
+    from Reduino.Displays import LCD
+
+    first, depth = args
+    ops = [("a", i) for i in range(len(MULTI_MENU))] + [("t", 100), ("t", 30)]
+    violation = None
+    visited = 0
+
+    def build(hist):
+        lcd = LCD(i2c_addr=39, cols=4, rows=2)
+        now = 0
+        looping = {}  # key -> text
+        for kind, arg in hist:
+            if kind == "a":
+                style, row, text, loop = MULTI_MENU[arg]
+                before = set(lcd.animations)
+                lcd.animate(style, row, text, speed_ms=100, loop=loop)
+                new = [k for k in lcd.animations if k not in before]
+                # a (re)started animation may reuse a key: whatever it replaced is no longer expected to run
+                for k in list(looping):
+                    stk = lcd.animations.get(k)
+                    if stk is not None and k not in new and loop and (stk.animation, stk.row) == (style, row) and looping[k] == text:
+                        del looping[k]  # the identical looping animation was requested again
+                if loop:
+                    mine = new or [k for k, v in lcd.animations.items() if (v.animation, v.row, v.text, v.loop) == (style, row, text, True) and v.active]
+                    if not mine:
+                        return lcd, now, looping, "a looping animate() request is not registered as an active animation"
+                    looping[mine[-1]] = text
+            else:
+                now += arg
+                lcd.tick(now)
+        return lcd, now, looping, None
+
+    frontier = deque([[("a", first)]])
+    while frontier and violation is None:
+        hist = frontier.popleft()
+        visited += 1
+        try:
+            lcd, now, looping, err = build(hist)
+        except Exception as exc:  # noqa: BLE001
+            err, lcd, looping = f"raised {type(exc).__name__}: {exc}", None, {}
+        if err is None:
+            if any(len(r) != 4 for r in lcd.buffer):
+                err = f"row width changed: {lcd.buffer!r}"
+            for key, text in looping.items():
+                st = lcd.animations.get(key)
+                if st is None or st.text != text or not st.loop:
+                    err = f"the looping animation registered as {key!r} ({text!r}) was dropped or replaced"
+                elif not st.active:
+                    err = f"the looping animation {key!r} became inactive"
+            if err is None and looping:
+                # liveness: three on-time ticks change something in every looping animation's state
+                probe = copy.deepcopy(lcd)
+                snap = {k: (probe.animations[k].offset, probe.animations[k].show, probe.animations[k].visible, probe.animations[k].direction, probe.animations[k].cycles) for k in looping}
+                t = now
+                moved = set()
+                for _ in range(3):
+                    t += 100
+                    probe.tick(t)
+                    for k in looping:
+                        stp = probe.animations.get(k)
+                        if stp is None or (stp.offset, stp.show, stp.visible, stp.direction, stp.cycles) != snap[k]:
+                            moved.add(k)
+                stuck = [k for k in looping if k not in moved and len(looping[k]) > 0]
+                if stuck:
+                    err = f"looping animation(s) {stuck} do not advance on three on-time ticks"
+        if err is not None:
+            violation = {"subject": f"host-multi:{first}", "history": [list(h) for h in hist], "message": err}
+            break
+        if len(hist) < depth:
+            n_anim = sum(1 for k, _ in hist if k == "a")
+            for op in ops:
+                if op[0] == "a" and n_anim >= 3:
+                    continue
+                frontier.append(hist + [op])
+    return {"subject": f"host-multi:{first}", "histories": visited, "violation": violation}
+
+
+def host_multi(report: Report, tier: str) -> dict:
+    from rmc import pipeline
+
+    depth = 7 if tier == "thorough" else 6
+    jobs = [(i, depth) for i in range(len(MULTI_MENU))]
+    results = pipeline.pool().imap_unordered(_host_multi, jobs) if pipeline.WORKERS > 1 else map(_host_multi, jobs)
+    total = 0
+    for res in results:
+        total += res["histories"]
+        v = res["violation"]
+        if v:
+            key = explore.history_key(ID, v["subject"], [("hist", tuple(map(tuple, v["history"])), {})])
+            report.violation(key, f"{v['subject']}: history {v['history']}: {v['message']}", v)
+    report.transitions += total
+    report.evaluations += total
+    report.traces_validated += total
+    return {"histories": total, "depth": depth, "menu": len(MULTI_MENU)}
+
+
 def host_configs(tier: str) -> List[tuple]:
     max_cols = 8 if tier == "thorough" else 6
     return [(style, length, cols, loop, speed) for style in STYLES for cols in range(1, max_cols + 1) for length in range(0, cols + 3)
@@ -254,6 +360,14 @@ def gen_device(tier: str) -> Iterator[dict]:
                 runs = [{"passes": len(s), "adv": s, "t0": t0} for t0 in (0, 5) for s in schedules(horizon, 150, 1, False)]
                 yield {"id": f"A16:{style}:{wiring}:loop{int(loop)}", "space": "A", "src": anim_script(style, text, 16, 2, loop, 150, wiring), "runs": runs,
                        "anims": [{"style": style, "len": len(text), "loop": loop, "speed": 150, "row": 0}], "geom": [16, 2], "lcds": 1}
+    # long texts (position counters beyond one byte): every style, non-looping, must still finish within the linear bound
+    for style in STYLES:
+        for length in (255, 256, 300):
+            text = (ALPHA * 12)[:length]
+            horizon = 2 * length + 3 * 8 + 12
+            runs = [{"passes": horizon, "adv": [1] * horizon, "t0": 0}]
+            yield {"id": f"AX:{style}:len{length}", "space": "A", "src": anim_script(style, text, 8, 2, False, 0), "runs": runs,
+                   "anims": [{"style": style, "len": length, "loop": False, "speed": 0, "row": 0}], "geom": [8, 2], "lcds": 1}
     # two animations on one display, and on two displays; a main loop that `continue`s
     two = common.script(["lcd = LCD(i2c_addr=39, cols=8, rows=2)", 'lcd.animate("scroll", 0, "abcdefghij", speed_ms=100, loop=True)', 'lcd.animate("blink", 1, "xy", speed_ms=50, loop=True)'], ['mon.write("u")'], prologue=PRO)
     runs = [{"passes": len(s), "adv": s, "t0": 0} for s in schedules(20, 50, 2 if tier == "thorough" else 1, False)]
@@ -363,6 +477,7 @@ def main(tier: str, seed: int, only=None) -> int:
     stats: Dict[str, Any] = {}
     if not only or "host" in only:
         stats["host"] = host_bfs(report, tier)
+        stats["host_multi"] = host_multi(report, tier)
     if not only or "device" in only:
         cases = list(gen_device(tier))
         n_sched = sum(len(c["runs"]) for c in cases)
